@@ -713,6 +713,20 @@ func c16Structure(c *Ctx) {
 								if pc, ok := ex.Tuple.(*ssa.Call); ok && strings.HasSuffix(calleeName(pc), "yubiattest.ParseCertificate") && strings.HasSuffix(w.Expr(pc.Call.Args[0]), "#0.Bytes") {
 									isNil, known := f.KnownNil(call.Block(), extractOf(pc, 1))
 									okApp = known && isNil && w.ErrEdgeEnds(pp, extractOf(pc, 1))
+									// ... every one of them: once a block has been parsed, the next block is not decoded (and the
+									// function does not return successfully) without the append - a "seen before" or "not wanted"
+									// test between the two drops certificates of the bundle
+									reach := ReachableAvoiding(pc, map[ssa.Instruction]bool{call.(ssa.Instruction): true})
+									skipped := ""
+									if dec != nil && dec.Parent() == pp && reach(dec) {
+										skipped = w.Pos(dec.Pos())
+									}
+									for _, r := range w.MayBeNilReturns(pp) {
+										if reach(r) {
+											skipped = w.Pos(r.Pos())
+										}
+									}
+									c.Check(skipped == "", "R5.pem", "ParsePEMCertificates|no parsed certificate is left out", w.Pos(call.Pos()), "from a successful parse the loop goes on only through the append", "a certificate that was parsed can be left out of the result (the loop goes on, at "+skipped+", without the append): the bundle does not yield all its certificates")
 								}
 							}
 						}
